@@ -24,4 +24,7 @@ Proof.
     + intros Hs. apply sources_spec in Hs. congruence.
     + split; [done|]. unfold ins. rewrite HX. simpl. set_solver.
   - intros d h. rewrite lookup_empty. intros [? ?]. done.
+  - intros t [X HX] _. destruct (decide (X = ∅)) as [->|Hne].
+    + left. by apply sources_spec.
+    + right. left. exists X. apply map_filter_lookup_Some. done.
 Qed.
